@@ -100,6 +100,8 @@ pub fn repr(m: &'static Model) -> BoxedStrategy<Repr> {
         1 => flank(m, 70).prop_map(|post| Repr::Truncated { post }),
         1 => (any::<u16>(), pre.clone()).prop_map(|(split, pre)| Repr::Appended { split, pre }),
         1 => (any::<u16>(), pre).prop_map(|(split, pre)| Repr::Prepended { split, pre }),
+        1 => flank(m, 70).prop_map(|junk| Repr::Refilled { junk }),
+        1 => (any::<u16>(), flank(m, 70)).prop_map(|(split, junk)| Repr::TruncExtend { split, junk }),
     ]
     .boxed()
 }
@@ -125,6 +127,8 @@ pub fn owned_repr(m: &'static Model) -> BoxedStrategy<Repr> {
         2 => flank(m, 70).prop_map(|post| Repr::Truncated { post }),
         1 => (any::<u16>(), pre.clone()).prop_map(|(split, pre)| Repr::Appended { split, pre }),
         1 => (any::<u16>(), pre).prop_map(|(split, pre)| Repr::Prepended { split, pre }),
+        1 => flank(m, 70).prop_map(|junk| Repr::Refilled { junk }),
+        1 => (any::<u16>(), flank(m, 70)).prop_map(|(split, junk)| Repr::TruncExtend { split, junk }),
     ]
     .boxed()
 }
@@ -184,6 +188,16 @@ pub fn any_repr(m: &'static Model) -> BoxedStrategy<Repr> {
     .boxed()
 }
 
+/// the fixed list of long lengths every length-dependent property visits (one case per length):
+/// around the powers of two where bulk / block / table fast paths typically switch on
+pub fn long_lens(thorough: bool) -> Vec<usize> {
+    let mut v = vec![1024usize, 1025, 2049, 4096, 4097, 4098, 8193, 16384, 16385, 16386];
+    if thorough {
+        v.extend([1023, 2047, 2048, 4095, 8191, 8192, 16383, 20000, 32767, 32769, 65535, 65536, 65537, 70001, 131073]);
+    }
+    v
+}
+
 /// long lengths: around powers of two (where fast paths and block algorithms switch) and uniform
 pub fn long_len(thorough: bool) -> BoxedStrategy<usize> {
     let top = if thorough { 16 } else { 14 };
@@ -195,6 +209,17 @@ pub fn long_len(thorough: bool) -> BoxedStrategy<usize> {
     }
     let hi = if thorough { 70_000usize } else { 20_000 };
     prop_oneof![3 => select(around), 1 => 1000..=hi].boxed()
+}
+
+/// a sequence of exactly `n` symbols in any representation
+pub fn seq_spec_n(id: CodecId, n: usize) -> BoxedStrategy<SeqSpec> {
+    let m = id.model();
+    (codes_n(m, n), repr(m)).prop_map(|(codes, repr)| SeqSpec { codes, repr }).boxed()
+}
+
+pub fn owned_spec_n(id: CodecId, n: usize) -> BoxedStrategy<SeqSpec> {
+    let m = id.model();
+    (codes_n(m, n), owned_repr(m)).prop_map(|(codes, repr)| SeqSpec { codes, repr }).boxed()
 }
 
 pub fn codes_long(m: &'static Model, thorough: bool) -> BoxedStrategy<Vec<u8>> {
